@@ -15,6 +15,11 @@ func verifSmallInt(lo, hi int) float64 { return float64(verifIntRange(lo, hi)) }
 
 func VerifC01PowMod() {
 	a, b := verifFloat64(), verifFloat64()
+	if verifIntRange(0, 1) == 1 {
+		// fixed operands beyond the integer ranges (pow and fmod are uninterpreted for symbolic operands, exact for these)
+		a = []float64{1180591620717411303424, 1e30, -9223372036854775808, 9223372036854775808, 1e18 + 2, -7, 7.5, math.Inf(1)}[verifIntRange(0, 7)]
+		b = []float64{3, 7, 1099511627776, -3, 2.5, 1e30}[verifIntRange(0, 5)]
+	}
 	env := verifEnv{vars: map[string]value{"a": num(a), "b": num(b)}}
 	exprs := []string{"a ^ b", "a % b", "a ** b", "2 ^ a ^ b", "-a ^ b", "a ^ -b", "r = a; r ^= b", "r = a; r %= b", "!a ^ b", "a * b ^ 2", "a ^ 2 * b"}
 	ei := verifIntRange(0, len(exprs)-1)
@@ -188,6 +193,8 @@ func VerifC01ArrayOps() {
 		`function f(arr, k) { return k in arr } BEGIN { a[i] = 1; r = f(a, i) ":" f(a, j) }`,
 		`BEGIN { a[i] = 1; if (!(j in a)) r = "no"; else r = "yes" }`,
 		`BEGIN { SUBSEP = sep; a[i, j, i] = 1; delete a[i, j, i]; r = length(a) ":" ((i, j, i) in a) }`,
+		`BEGIN { CONVFMT = "%.2g"; a[3.14159] = 1; k = 3.14159; r = (k in a) ":" (3.14159 in a) ":" length(a) ":" a[k] }`,
+		`BEGIN { a[0.1 + 0.2] = 1; CONVFMT = "%.3f"; a[0.30000000000000004] = 2; k = 0.1 + 0.2; r = length(a) ":" a[k] }`,
 	}
 	pi := verifIntRange(0, len(progs)-1)
 	b2s := func(c bool) string {
@@ -230,6 +237,10 @@ func VerifC01ArrayOps() {
 		verifAssert(r == want, msg)
 	case 7:
 		verifAssert(r == "0:0", msg)
+	case 8:
+		verifAssert(r == "1:1:1:1", "a constant subscript is not converted with the CONVFMT in force when the statement runs") // one element, under "3.1"
+	case 9:
+		verifAssert(r == "2:2", "a constant subscript is not converted with the CONVFMT in force when the statement runs") // "0.3" then "0.300"
 	}
 }
 
